@@ -528,7 +528,7 @@ def b_chr8(ip, st, args, kwargs):
     (v,) = args
     if isinstance(v, int):
         return bytes([v % 256])
-    return mk(z3.StrFromCode(I(v)), 'bytes')
+    return mk(byte_str(st, I(v) % 256), 'bytes')
 
 
 def b_all_bytes(ip, st, args, kwargs):
@@ -600,7 +600,12 @@ def str_split(ip, st, v, sep, maxsplit, ty):
     s = S(v)
     zsep = zstr(sep)
     n = len(sep)
-    parts = z3.Const(fresh('split', 'int').t.decl().name() + '_l', z3.SeqSort(z3.StringSort()))
+    if maxsplit is None and ty == 'str':
+        # the uninterpreted spec function split(s, sep) (so equal inputs give equal lists), constrained by sound facts
+        parts = ip.specs.call(ip, st, 'split', [v, sep], {}).t
+        st.pc.append(S(ip.specs.call(ip, st, 'join', [sep, Sym(parts, ('list', 'str'))], {})) == s)
+    else:
+        parts = z3.Const(fresh('split', 'int').t.decl().name() + '_l', z3.SeqSort(z3.StringSort()))
     rest = s
     st.pc.append(z3.Length(parts) >= 1)
     depth = SPLIT_DEPTH if maxsplit is None else min(SPLIT_DEPTH, maxsplit + 1)
@@ -1082,7 +1087,7 @@ def bytearray_method(ip, st, ref, p, name, args, kwargs):
         else:
             x = I(i)
             ip.cond_raise(st, z3.Or(x < 0, x >= 256), 'ValueError', 'byte must be in range(0, 256)')
-            nv = mk(z3.Concat(S(val), z3.StrFromCode(x)), 'bytes')
+            nv = mk(z3.Concat(S(val), byte_str(st, x)), 'bytes')
         st.mut(ref).f['val'] = nv
         return None
     if name == 'decode':
@@ -1108,9 +1113,18 @@ def be_value(st, s, n, ty='bytes'):
     return t
 
 
-def be_bytes(x, n):
+def byte_str(st, x):
+    """the one-byte string with code x (0 <= x < 256 by construction); redundant but helpful facts are stated"""
+    c = z3.StrFromCode(x)
+    if st is not None:
+        st.pc.append(z3.Length(c) == 1)
+        st.pc.append(z3.StrToCode(c) == x)
+    return c
+
+
+def be_bytes(x, n, st=None):
     """n-byte big-endian string of z3 Int x (0 <= x < 256^n)"""
-    parts = [z3.StrFromCode((x / (256 ** (n - 1 - j))) % 256) for j in range(n)]
+    parts = [byte_str(st, (x / (256 ** (n - 1 - j))) % 256) for j in range(n)]
     return parts[0] if n == 1 else z3.Concat(*parts)
 
 
@@ -1189,7 +1203,7 @@ def m_struct_pack(ip, st, args, kwargs):
         ip.cond_raise(st, z3.Or(x < lo, x >= hi), 'struct.error', 'argument out of range')
         if signed:
             x = z3.If(x < 0, x + 256 ** n, x)
-        parts.append(be_bytes(x, n))
+        parts.append(be_bytes(x, n, st))
     return mk(parts[0] if len(parts) == 1 else z3.Concat(*parts), 'bytes')
 
 
